@@ -68,15 +68,15 @@ def run_engine(run, tier, seed, workdir, idx):
     return {"run": run, "rc": r.returncode, "log": r.stdout[-4000:], "res": res, "wall": time.time() - t0}
 
 
-def native_replay(pkg, cases, timeout=300):
+def native_replay(pkg, cases, timeout=300, tags=None):
     """run cases natively in the harness package; returns list of event lists (one per case) and raw output"""
     d = tempfile.mkdtemp(prefix="vrt_", dir=os.path.join(ROOT, ".work"))
     inp, ev = os.path.join(d, "in.json"), os.path.join(d, "ev.txt")
     json.dump({"cases": cases}, open(inp, "w"))
     env = dict(ENV, VRT_INPUTS=inp, VRT_EVENTS=ev)
     try:
-        r = subprocess.run(["timeout", str(timeout), "go", "test", "-vet=off", "-count=1", "-run", "^TestReplay$",
-                            "-timeout", "%ds" % (timeout - 5), "./" + pkg.split("/", 1)[1]],
+        r = subprocess.run(["timeout", str(timeout), "go", "test", "-vet=off", "-count=1", "-run", "^TestReplay$"] + (["-tags", tags] if tags else []) +
+                           ["-timeout", "%ds" % (timeout - 5), "./" + pkg.split("/", 1)[1]],
                            cwd=HARNESS, env=env, stdout=subprocess.PIPE, stderr=subprocess.STDOUT, text=True)
         out = r.stdout
     except Exception as e:  # pragma: no cover
@@ -313,7 +313,7 @@ def main():
     for (pkg, fn, vid, ktag), (run, v) in uniq.items():
         tags = [t for t in ktag.split("+") if t]
         hit = [t for t in tags if t in known_here]
-        case = {"fn": fn, "inputs": v.get("inputs") or {}, "params": run.get("params", {})}
+        case = {"fn": fn, "inputs": v.get("inputs") or {}, "params": run.get("params", {}), "sched": v.get("sched_events") or []}
         if v["kind"] == "static":
             evs, raw, ev = [], "", []
         elif run.get("trace"):
@@ -325,11 +325,11 @@ def main():
         else:
             tries = 4 if run.get("sched") else 1
             for _ in range(tries):
-                evs, raw = native_replay(pkg, [case])
+                evs, raw = native_replay(pkg, [case], tags=run.get("tags"))
                 ev = evs[0] if evs else []
                 if v["kind"] == "assert" and ("A:%s:0" % vid) in ev:
                     break
-                if v["kind"] == "panic" and any(e.startswith("P:") for e in ev):
+                if v["kind"] == "panic" and (any(e.startswith("P:") for e in ev) or "panic:" in raw):
                     break
         if v["kind"] == "static":
             ok = True  # deterministic scan of the source: re-running the scan is the replay
@@ -338,7 +338,7 @@ def main():
         elif v["kind"] == "assert":
             ok = ("A:%s:0" % vid) in ev
         elif v["kind"] == "panic":
-            ok = any(e.startswith("P:") for e in ev)
+            ok = any(e.startswith("P:") for e in ev) or "panic:" in raw
         else:
             ok = any(e.startswith("X:run-timeout") for e in ev) or "panic: test timed out" in raw or "DEADLOCK" in raw
         h = hashlib.sha1(json.dumps([pkg, fn, vid, v["inputs"]], sort_keys=True).encode()).hexdigest()[:12]
@@ -356,8 +356,8 @@ def main():
             json.dump({"cases": [case]}, open(os.path.join(rdir, "inputs.json"), "w"), indent=1)
             json.dump(rec, open(os.path.join(rdir, "violation.json"), "w"), indent=1)
             open(os.path.join(rdir, "replay.sh"), "w").write(
-                "#!/bin/sh\ncd %s && GOFLAGS=-mod=mod GOPROXY=off GOSUMDB=off VRT_INPUTS=%s timeout 300 go test -vet=off -count=1 -run '^TestReplay$' -v ./%s\n"
-                % (HARNESS, os.path.join(rdir, "inputs.json"), pkg.split("/", 1)[1]))
+                "#!/bin/sh\ncd %s && GOFLAGS=-mod=mod GOPROXY=off GOSUMDB=off VRT_INPUTS=%s timeout 300 go test -vet=off -count=1 %s-run '^TestReplay$' -v ./%s\n"
+                % (HARNESS, os.path.join(rdir, "inputs.json"), ("-tags %s " % run["tags"]) if run.get("tags") else "", pkg.split("/", 1)[1]))
             confirmed.append((rec, rdir))
         else:
             rec["native_output_tail"] = raw[-1500:]
@@ -398,8 +398,8 @@ def main():
         groups.setdefault(run["pkg"], []).append((run, s))
     for pkg, lst in groups.items():
         lst = lst[: chk.get("crossval_max", 8)]
-        cases = [{"fn": run["fn"], "inputs": s["inputs"], "params": run.get("params", {})} for run, s in lst]
-        evs, raw = native_replay(pkg, cases)
+        cases = [{"fn": run["fn"], "inputs": s["inputs"], "params": run.get("params", {}), "sched": s.get("sched_events") or []} for run, s in lst]
+        evs, raw = native_replay(pkg, cases, tags=lst[0][0].get("tags"))
         for i, (run, s) in enumerate(lst):
             nat = comparable(evs[i]) if i < len(evs) else None
             same = nat is not None and nat == comparable(s["events"])
